@@ -30,7 +30,7 @@ CHECKS = {
             "Check/mate/stalemate/material predicates on every enumerated position; occurred-before / threefold / 50-move / is_draw on every prefix of all games up to the arena depth, against a history model with identity = placement+side+rights+ep.",
             POS_NOTE, "3/C07"),
     "C08": (MC, "exhaustive enumeration of small-material positions x depths x table histories on the real search; oracle = exhaustive AND/OR mate solver on the reference model",
-            "Every placement with a mate in one of 11-26 signatures (half-move clock 0/98/99) x go depth 1..D x {fresh, warm, after a searchmoves-restricted search, after a stopped search}: bestmove mates; every final `score mate y` of all sessions (incl. placements with a check whose only reply is a pawn move, and the neighbourhoods of 16 tactical seeds) is verified by the solver (y as an upper bound in moves, cap 3/4, bounded solver effort).",
+            "Every placement with a mate in one of 11-26 signatures and of the castling-mate family (king+rook on home squares, castling itself mates; 7-48 signatures) (half-move clock 0/98/99) x go depth 1..D x {fresh, warm, after a searchmoves-restricted search, after a stopped search}: bestmove mates; every final `score mate y` of all sessions (incl. placements with a check whose only reply is a pawn move, and the neighbourhoods of 16 tactical seeds) is verified by the solver (y as an upper bound in moves, cap 3/4, bounded solver effort).",
             "In-process sessions on the -Ofast build with tables reset to the freshly constructed state; announcements above the solver cap are counted as unverified (never as violations).", "3/C08"),
     "C09": (MC, "exhaustive enumeration of depth limits 1..45,60,100,1000 x all searchmoves subsets x table pre-states x virtual-clock steps on the real search",
             "Iterations reported are exactly 1..m with m <= d, bestmove inside searchmoves, exactly one bestmove, and every finite-limit search ends inside the node horizon; also every ordered pair of 9 go commands of different kinds in one session and depth + time control in one go.",
@@ -48,7 +48,7 @@ CHECKS = {
             "Every enumerated position with sufficient material is evaluated together with its colour mirror on the real evaluator.",
             "Mirror from refchess; one long-lived evaluator (cache purity is C14).", "3/C13"),
     "C14": (MC, "exhaustive enumeration of all operation sequences (length 4/5) over an alphabet constructed per process to collide in the pawn cache, vs a fresh evaluator; bounds on every evaluation of the spaces",
-            "Every sequence over {eval of 8-10 colliding positions (same slot, slot 0, equal low key half), clear} equals the fresh-evaluator result; every placement of PP+piece families on a long-lived evaluator equals the value after a clear; seed graphs evaluate the same in two orders; every evaluation of the listed spaces (incl. 8-9 queens + 2 rooks v bare king) is strictly inside the non-mate range.",
+            "Every sequence over {eval of 8-10 colliding positions (same slot, slot 0, equal low key half), clear} equals the fresh-evaluator result; so does every sequence (length 3/4) over {eval of 24 positions, one per material class of the dispatch (bare kings, each specialised endgame, general), clear}; every placement of PP+piece families on a long-lived evaluator equals the value after a clear; seed graphs evaluate the same in two orders; every evaluation of the listed spaces (incl. 8-9 queens + 2 rooks v bare king) is strictly inside the non-mate range.",
             "Alphabet found by exhaustive key search against the process's random keys.", "3/C14"),
     "C15": (MC, "explicit-state enumeration of every (position, legal move) edge: predicates vs what the reference make does",
             "move_is_capture / move_is_quiet / move_gives_check on every edge of the spaces (incl. promotions, ep, castling, discovered and double checks).", POS_NOTE, "3/C15"),
